@@ -642,7 +642,13 @@ def gen_cases(focus, tier, rng):
         for i in range(1500):
             ver = rng.choice(["v1", "v1", "v2"])
             mode, exc = rng.choice(V1_CONFIGS) if ver == "v1" else ("", rng.random() < 0.5)
-            n_in, n_out = rng.randint(0, 4), rng.randint(0, 4)
+            # a Colang 1.0 turn may produce at most 100 events (runtime.py raises "Too many events."):
+            # reached with 7 rails in general mode, 6 in dialog mode - stay below the cap
+            cap = 8 if ver == "v2" else (5 if mode == "dialog" else 6)
+            while True:
+                n_in, n_out = rng.randint(0, 4), rng.randint(0, 4)
+                if n_in + n_out <= cap:
+                    break
             TT = rng.choice([4, 5])
             salt = "y%x" % rng.getrandbits(20)
             p = rng.randrange(TT)
@@ -855,6 +861,8 @@ COMMON_ASSUMPTIONS = [
     "a rewriting Colang 1 rail assigns $user_message / $bot_message; rails do not touch the loop variables $i / $input_flows",
     "rail actions, the LLM, the parsers of LLM output, the dialog policy and the predefined messages are arbitrary functions "
     "(Section variables); action failures (C03), generation options (C16) and streaming are outside these models",
+    "one bot message per turn: dialog flows that utter several bot messages in one turn, multi-step generation and "
+    "single_call mode are outside the models (each would repeat `process bot message` per message)",
     "prompt rendering is not modelled: the model tracks which texts flow into a prompt, the harness compares the set of "
     "marker texts found in the real prompt (the next-step prompt strips message texts: inclusion only); the predefined "
     "messages of the configuration are constants and are ignored in that comparison",
@@ -873,6 +881,9 @@ OBSERVATIONS = [
     "O2: library flow `self check output` (flows.v1.co) with enable_rails_exceptions creates OutputRailException but does "
     "not `stop`: later output rails still run and StartUtteranceBotAction(blocked text) is stored in the event history; "
     "the reply is the exception (Props/C02.v C02_T_self_check_output_stops exempts that edge)",
+    "O4: a Colang 1.0 turn that produces more than 100 events makes generate raise Exception('Too many events.') "
+    "(runtime.py safety cap): reached with 7 accept-all rails (input+output) in general mode, 6 in dialog mode; an "
+    "availability limit outside C01/C02 - the thorough generator stays below it",
     "O3: after an internal error (hide_prev_turn) flows read the context of the truncated history while "
     "_process_start_action suppresses ContextUpdates equal to the context of ALL events: a later rail decision can read a "
     "stale action result (seen with passthrough + exception message in the caller's list); reported to the C03 builder",
